@@ -7,7 +7,7 @@ RCOUNT/SNVDP/DP/RCALLS and the inference tensor derive from the same concatenate
 pool members are concatenated before de-duplication. Not decided: pysam's alignment semantics."""
 from __future__ import annotations
 import ast
-from ..terms import walk, show, simplify, mkcmp, path, positive
+from ..terms import walk, show, simplify, mkcmp, path, positive, atoms
 from ..kernels import kwargs, storage_root
 from ..pat import find_all, find, has, count
 
@@ -61,7 +61,7 @@ def rule_cascade(ctx):
     first = None
     for ev in effects:
         got = {}
-        for c, pol in path(ev, marker):
+        for c, pol in sorted(atoms(path(ev, marker)), key=lambda cp: show(cp[0])):       # `if a: skip` `elif b: skip` or `if a or b: skip`: the same filters
             kind, ok = classify_filter(read, c, pol)
             if kind is not None:
                 got[kind] = (ok, show(c), pol)
@@ -237,7 +237,7 @@ def rule_statistics(ctx):
     rc = stores['RCOUNT']
     ok = rc[0] == 'idx' and rc[1][0] == 'attr' and rc[1][2] == 'shape' and rc[2] == ('const', 0)
     CH = rc[1][1] if ok else None
-    ok = ok and CH[0] == 'phi' and CH[2][0] == 'call' and CH[2][1] == 'numpy.concatenate'
+    ok = ok and CH[0] == 'phi' and any(arm[0] == 'call' and arm[1] == 'numpy.concatenate' for arm in (CH[2], CH[3]))
     ctx.check(ok, 'R06.6/rcount', f.construct('RCOUNT'), "RCOUNT = rows of the concatenated read matrix", f"RCOUNT is {show(rc)[:100]}", f.where())
     def mentions(t, x):
         return any(y == x for y in walk(t))
